@@ -87,7 +87,7 @@ pub fn generate(seed: u64, idx: u64) -> Scenario {
     for _ in 0..n {
         let text = s.text(&uri).cloned().unwrap_or_default();
         let mut cur = text.clone();
-        let k = *rng.pick(&[1usize, 1, 1, 1, 2, 4]);
+        let k = batch_size(&mut rng, &[1usize, 1, 1, 1, 2, 4]);
         let k = if rng.chance(15) { 0 } else { k }; // a notification without content changes is legal
         let mut edits = vec![];
         for _ in 0..k {
